@@ -9,6 +9,9 @@ const (
 	EOS               = -1
 	_UNKNOWN          = -2
 	maxRecursionLevel = 1000000
+	// maxCaptureNesting bounds the nesting of captures in a pattern (the parser recurses once per level).
+	// The reference implementation allows 32 captures in all (LUA_MAXCAPTURES), nested or not.
+	maxCaptureNesting = 32
 )
 
 /* Error {{{ */
@@ -88,6 +91,7 @@ type scanner struct {
 	src   []byte
 	State scannerState
 	saved scannerState
+	depth int // nesting of the capture being parsed
 }
 
 func newScanner(src []byte) *scanner {
@@ -415,7 +419,12 @@ func parsePattern(sc *scanner, toplevel bool) *seqPattern {
 				sc.Next()
 				pat.Patterns = append(pat.Patterns, &posCapPattern{})
 			} else {
+				sc.depth++
+				if sc.depth > maxCaptureNesting {
+					panic(newError(sc.CurrentPos(), "too many captures"))
+				}
 				ret := &capPattern{parsePattern(sc, false)}
+				sc.depth--
 				if sc.Peek() != ')' {
 					panic(newError(sc.CurrentPos(), "unfinished capture"))
 				}
